@@ -140,6 +140,7 @@ func collGen(r *rand.Rand, tier string, b collBias) collInput {
 				s.Pad = []int{1000, 50_000, 200_000, 400_000, 1_000_000}[r.Intn(5)]
 			}
 			s.Root = r.Intn(100) < 22
+			s.Via = []int{0, 0, 1, 1, 2}[r.Intn(5)]
 			if b.Ages && r.Intn(100) < 50 {
 				tt, _ := collEff(cfg)
 				s.Age = []int64{tt * 3 / 10, tt * 55 / 100, tt * 8 / 10, tt * 13 / 10}[r.Intn(4)]
